@@ -5,7 +5,9 @@ side: tak_ext.solve_policy is wrapped to log the exact (pi, q, lambda) of every 
 Node.policy_probs is wrapped to log the statistics of the node at call time and what was reported.
   * Coq: the model replays the same streams and, before every simulation, computes policy_inputs at every
     expanded node of the descent; q must be within one float32 ulp (2^-23 relative) of the exact rational,
-    lambda^2 (N+K)^2 within 1e-12 relative of C^2 N (no square root in Q); the move select_root_move returned must
+    the multiplier BIT FOR BIT: the binary64 pattern of the lambda_n passed to the solver and the binary32 pattern the
+    native solver receives must be model/LambdaF64.v's mirror of c*sqrt(N)/(N+K) (lambda_agrees; the old test
+    lambda^2 (N+K)^2 ~ C^2 N within 1e-12 is kept as a sanity check only); the move select_root_move returned must
     be the model's child move and accepted by the model's rules.
   * Python oracle (exact fractions): the reported tensor is finite, non-negative, of the form
     lambda*pi_i/(alpha - q_i) for ONE alpha > max q, for the q / lambda / prior the property prescribes; before
@@ -28,7 +30,7 @@ THEOREMS = [
     "C09_select_root_move_legal", "C09_select_root_move_accepted",
     "C09_policy_meets_solver_contract_partial", "C09_multiplier_in_range_partial",
 ]
-MODEL_TARGETS = c08.MODEL_TARGETS
+MODEL_TARGETS = c08.MODEL_TARGETS + ["model/Solver.vo", "model/LambdaF64.vo"]
 TRUSTED_BASE = c08.TRUSTED_BASE + [
     "wrappers around tak_ext.solve_policy and Node.policy_probs installed for the duration of a search",
     "the solver's own accuracy, termination and float behaviour: C10 (not proved here)",
@@ -38,10 +40,14 @@ ASSUMPTIONS = c08.ASSUMPTIONS + [
     "PARTIAL: 'to the accuracy the solver guarantees' rests on C10",
 ]
 
-CTYPE = "(Z * Z) * (Z * Z) * (Z * Z) * position * list phase * list eval * option (ocall * Z * mv)"
-CHECK = ("fun c => let '(co, mx, cc, p0, phs, evs, fin) := c in "
-         "check_calls (fq co) (fq mx) (fq cc) p0 phs evs fin")
-SHOW = "fun c => let '(co, mx, cc, p0, phs, evs, fin) := c in show_calls (fq co) (fq mx) (fq cc) p0 phs evs"
+HEADER = c08.HEADER + "\nFrom TV Require Import model.Solver model.LambdaF64."
+CTYPE = "(Z * Z) * (Z * Z) * ((Z * Z) * Z) * position * list phase * list eval * option (ocall * Z * mv)"
+CHECK = ("fun c => let '(co, mx, (cc, cb), p0, phs, evs, fin) := c in "
+         "check_calls lambda_agrees (fq co) (fq mx) (fq cc) cb p0 phs evs fin")
+CHECK_LOOSE = ("fun c => let '(co, mx, (cc, cb), p0, phs, evs, fin) := c in "
+               "check_calls (fun _ _ _ _ _ => true) (fq co) (fq mx) (fq cc) cb p0 phs evs fin")
+SHOW = ("fun c => let '(co, mx, (cc, cb), p0, phs, evs, fin) := c in "
+        "show_calls lambda_agrees (fq co) (fq mx) (fq cc) cb p0 phs evs")
 
 ALPHA_TOL = 2e-5      # spread allowed between the alphas recovered from the individual weights, per unit of (alpha - q_i)
 SUM_GROSS = 5e-2
@@ -174,7 +180,7 @@ def case_term(trace):
     fin = None
     if sel is not None and len(sel["calls"]) == 1 and len(sel["choices"]) == 1:
         fin = f"({c08.c_call(sel['calls'][0])}, {cz(sel['choices'][0])}, {takio.c_move(sel['move'])})"
-    return (f"({c08.c_fme(f32(spec['cutoff']))}, {c08.c_fme(mix)}, {c08.c_fme(spec['C'])}, "
+    return (f"({c08.c_fme(f32(spec['cutoff']))}, {c08.c_fme(mix)}, ({c08.c_fme(spec['C'])}, {c08.f64_bits(spec['C'])}), "
             f"{takio.c_pos(c08.rebuild(trace['root_snap']))}, {phs}, {c08.c_evals(trace)}, {copt(fin)})")
 
 
@@ -281,7 +287,7 @@ def correspondence(run):
     torch.set_num_threads(1)
     c08.tie_cutoff(run)
     specs = all_specs(run)
-    cs = core.Cases(ID, "calls", c08.HEADER, CTYPE, CHECK, show=SHOW, shard=(2 if run.quick else 4))
+    cs = core.Cases(ID, "calls", HEADER, CTYPE, CHECK, show=SHOW, shard=(2 if run.quick else 4))
     dist, total = Counter(), Counter()
     samples, seen = [], set()
     ncalls = nontrivial = 0
@@ -315,6 +321,24 @@ def correspondence(run):
     run.extra["impl_wall_s"] = round(time.time() - t0, 1)
     failing, shard_fail, nshards = cs.run()
     run.oblige(f"correspondence:calls ({nshards} shards, {len(cs)} histories)", not shard_fail, str(shard_fail)[:1500])
+    # a disagreement that disappears when only the multiplier's bits are ignored (the 1e-12 test on lambda^2 still
+    # holds) is a different rounding of the same multiplier, e.g. a re-associated formula: the bit-for-bit tie is
+    # broken, the property is not - reported as a broken obligation, not as a violating input
+    rounding_only = []
+    if failing:
+        loose = core.Cases(ID, "loose", HEADER, CTYPE, CHECK_LOOSE, shard=2)
+        for meta in failing:
+            loose.add(cs.terms[cs.metas.index(meta)], meta)
+        still, loose_fail, _ = loose.run()
+        if not loose_fail:
+            still_keys = {m["key"] for m in still}
+            rounding_only = [m for m in failing if m["key"] not in still_keys]
+            failing = [m for m in failing if m["key"] in still_keys]
+    run.oblige("tie:multiplier bit for bit - every recorded lambda_n (binary64) and the float the solver receives "
+               "(binary32) equal model/LambdaF64.v's c*sqrt(N)/(N+K)", not rounding_only,
+               f"{len(rounding_only)} histories differ in rounding only (lambda^2 (N+K)^2 = C^2 N still holds within "
+               f"1e-12), e.g. spec {rounding_only[0]['spec'] if rounding_only else None}")
+    dist["histories_with_multiplier_rounded_differently"] = len(rounding_only)
     dist["searches_disagreeing_with_model"] = len(failing)
     for meta in failing[:c08.MAX_REPORTS]:
         res = one_search(meta["spec"])
@@ -345,7 +369,7 @@ def replay(run, rp):
     out = {"oracle_problems": problems[:6], "stats": dict(st)}
     disagrees = None
     if not problems and not trace["crash"] and c08.representable(trace):
-        cs = core.Cases(ID, "replay", c08.HEADER, CTYPE, CHECK, show=SHOW, shard=1)
+        cs = core.Cases(ID, "replay", HEADER, CTYPE, CHECK, show=SHOW, shard=1)
         cs.add(case_term(trace), {"spec": spec})
         failing, shard_fail, _ = cs.run()
         disagrees = bool(failing or shard_fail)
